@@ -58,9 +58,13 @@ class Driver:
                         return x
                 self.samples.append({"request": [dec(x)[:300] for x in req.split("\t")], "response": " ".join(dec(x)[:300] for x in resp.split(" "))[:400]})
 
+    panic_log = None
+
     def call(self, op, *args):
         r = self._call(op, *args)
         self._note("\t".join([op] + list(args)), r)
+        if self.panic_log is not None and (r.startswith("panic") or r.startswith("died")):
+            self.panic_log.append(([op] + list(args), r))
         return r
 
     def _call(self, op, *args):
@@ -960,8 +964,10 @@ def search_witness(drv, rng, budget):
 # ---------------------------------------------------------------- C12 templates
 @searcher("template/")
 def search_template(drv, rng, budget):
-    """templates with 1-3 parameters: instantiation with matching arguments behaves like literal substitution; a missing
-    argument or an argument of another type is rejected; extra arguments are ignored"""
+    """templates with 1-3 integer parameters: instantiation with matching arguments behaves like literal substitution; a missing
+    argument (also: an empty argument map) or an argument of another type is rejected; extra arguments are ignored; composite
+    arguments (arrays, tuples, nested, lists folded with a non-commutative function) keep the order of their components; one
+    parameter name used at two different types is rejected"""
     for it in range(min(budget, 150)):
         k = rng.randint(1, 3)
         ps = []
@@ -1015,6 +1021,60 @@ def search_template(drv, rng, budget):
         got = drv.call("run", hx(src), hx(mod(wrongv)), hx(""), "0")
         if not got.startswith("exec-fail"):
             return {"call": "instantiate with another value", "input": {"program": src, "arguments": mod(wrongv)}, "op": ["run", hx(src), hx(mod(wrongv)), hx(""), "0"], "expected": "exec-fail", "observed": got}
+        # no arguments at all: every reported parameter is missing
+        got = drv.call("run", hx(src), hx(""), hx(""), "0")
+        if not got.startswith("compile-err"):
+            return {"call": "instantiate with an EMPTY argument map", "input": {"program": src, "arguments": ""}, "op": ["run", hx(src), hx(""), hx(""), "0"], "expected": "compile-err (missing argument)", "observed": got}
+        got = drv.call("run", hx(src), hx("mod param {\n}"), hx(""), "0")
+        if not got.startswith("compile-err"):
+            return {"call": "instantiate with an empty `mod param`", "input": {"program": src, "arguments": "mod param {\n}"}, "op": ["run", hx(src), hx("mod param {\n}"), hx(""), "0"], "expected": "compile-err (missing argument)", "observed": got}
+    # composite arguments: order of the components matters (arrays, tuples, lists are scribed element by element)
+    for it in range(min(budget // 4, 60)):
+        n = rng.randint(2, 7)
+        vals = [rng.randrange(256) for _ in range(n)]
+        if len(set(vals)) < 2:
+            vals[0] = (vals[1] + 1) % 256
+        kind = rng.choice(["array", "tuple", "list", "nested"])
+        if kind == "array":
+            ty = "[u8; %d]" % n; arg = "[%s]" % ", ".join(map(str, vals))
+            use = "    let %s: %s = param::A;\n" % ("[%s]" % ", ".join("x%d" % i for i in range(n)), ty)
+        elif kind == "tuple":
+            ty = "(%s)" % ", ".join(["u8"] * n); arg = "(%s)" % ", ".join(map(str, vals))
+            use = "    let %s: %s = param::A;\n" % ("(%s)" % ", ".join("x%d" % i for i in range(n)), ty)
+        elif kind == "nested":
+            n = 4; vals = vals[:4] if len(vals) >= 4 else (vals + [7, 9, 11, 13])[:4]
+            ty = "((u8, u8), [u8; 2])"; arg = "((%d, %d), [%d, %d])" % tuple(vals)
+            use = "    let ((x0, x1), [x2, x3]): %s = param::A;\n" % ty
+        else:
+            bound = 8 if n < 8 else 16
+            ty = "List<u8, %d>" % bound; arg = "list![%s]" % ", ".join(map(str, vals))
+            # a non-commutative fold: acc' = acc * 3 + e (mod 2^32)
+            acc = 7
+            for v in vals: acc = (acc * 3 + v) % (2 ** 32)
+            use = None
+        if use is not None:
+            body = use + "".join("    assert!(jet::eq_8(x%d, %d));\n" % (i, v) for i, v in enumerate(vals))
+            src = "fn main() {\n" + body + "}\n"
+        else:
+            src = ("fn step(e: u8, acc: u32) -> u32 {\n    let (c1, m): (bool, u32) = jet::add_32(acc, acc);\n    let (c2, t): (bool, u32) = jet::add_32(m, acc);\n"
+                   "    let (c3, r): (bool, u32) = jet::add_32(t, jet::left_pad_low_8_32(e));\n    r\n}\n"
+                   "fn main() {\n    let l: %s = param::A;\n    let r: u32 = fold::<step, %d>(l, 7);\n    assert!(jet::eq_32(r, %d));\n}\n" % (ty, bound, acc))
+        args = "mod param {\n    const A: %s = %s;\n}" % (ty, arg)
+        got = drv.call("run", hx(src), hx(args), hx(""), "0")
+        if got != "ok":
+            return {"call": "instantiate with a composite argument (components in order)", "input": {"program": src, "arguments": args},
+                    "op": ["run", hx(src), hx(args), hx(""), "0"], "expected": "ok", "observed": got}
+        lit = src.replace("param::A", arg)
+        got = drv.call("run", hx(lit), hx(""), hx(""), "0")
+        if got != "ok":
+            return {"call": "program with the composite argument written literally", "input": {"program": lit}, "op": ["run", hx(lit), hx(""), hx(""), "0"], "expected": "ok", "observed": got}
+    # one parameter name used at two different types is rejected when the template is created (same type twice is fine)
+    for a, b, ok in [("Option<u8>", "Option<u32>", False), ("u8", "u16", False), ("(u8, u8)", "u16", False), ("Option<u8>", "Option<u8>", True), ("u16", "u16", True)]:
+        src = "fn main() {\n    let a: %s = param::X;\n    let b: %s = param::X;\n}\n" % (a, b)
+        got = drv.call("params", hx(src))
+        if ok != got.startswith("ok"):
+            return {"call": "TemplateProgram::new with one parameter at two types", "input": {"program": src}, "op": ["params", hx(src)],
+                    "expected": "ok" if ok else "err (parameter used at two different types)", "observed": got}
     return None
 
 
@@ -1167,9 +1227,10 @@ def mutate_type(rng, t):
 
 @searcher("static-rules/")
 def search_static_rules(drv, rng, budget):
-    """a fixed table of small programs around single static rules (list literal length vs bound, fold / for_while function
-    signatures, witness outside main, witness reuse, main signature, undefined names, argument counts): each is accepted or
-    rejected by the front end as the rule says; rejected ones must be rejected by the front end, not by a later internal error"""
+    """a fixed table of ~190 small programs around single static rules (expression typing per context, integer literal ranges per
+    width, tuple / array / list sizes, call arity and argument types, scoping of function bodies / blocks / match arms, definitions
+    before use, jets and built-ins, match typing, casts, witness rules, main signature, fold / for_while signatures): each is accepted
+    or rejected by the front end as the rule says; rejected ones must be rejected by the front end, not by a later internal error"""
     cases = []
     for b in (2, 4, 8, 16):
         for n in (0, 1, b - 2, b - 1, b, b + 1):
@@ -1200,6 +1261,147 @@ def search_static_rules(drv, rng, budget):
         ("fn main() { let x: (u8, u8) = (1, 2, 3); }", False), ("fn main() { let x: [u8; 2] = [1, 2, 3]; }", False),
         ("fn main() { let x: u8 = true; }", False), ("fn main() { let x: Option<u8> = Some(true); }", False),
         ("fn main() { let x: u8 = { let y: u8 = 1; y }; let z: u8 = y; }", False),
+    ]
+    # one or more cases per clause of the property: expression typing in every context, integer literal ranges, tuple / array sizes,
+    # call arity and argument types, scoping (function bodies, blocks, match arms), definitions before use, jets and built-ins,
+    # match typing, casts between equal layouts only, witness rules, `main`, list bounds, fold / for_while signatures
+    cases += [
+ # --- expression typing in every context
+ ("fn main() { let x: u16 = 1; let y: u8 = x; }", False),
+ ("fn main() { let x: u16 = 1; let y: u16 = x; }", True),
+ ("fn main() { let x: (u8, u16) = (1, 2); let (a, b): (u8, u16) = x; let c: u16 = b; }", True),
+ ("fn main() { let x: (u8, u16) = (1, 2); let (a, b): (u8, u16) = x; let c: u8 = b; }", False),
+ ("fn main() { let x: [u8; 2] = [1, 2]; let y: [u8; 3] = x; }", False),
+ ("fn main() { let x: Option<u8> = Some(1); let y: Option<u16> = x; }", False),
+ ("fn main() { let x: Either<u8, u16> = Left(1); }", True),
+ ("fn main() { let x: Either<u8, u16> = Right(1); }", True),
+ ("fn main() { let x: Either<u8, u16> = Left(256); }", False),
+ ("fn main() { let x: Either<u8, u16> = Right(65536); }", False),
+ ("fn main() { let x: Option<u8> = None; }", True),
+ ("fn main() { let x: u8 = None; }", False),
+ ("fn main() { let x: bool = 1; }", False),
+ ("fn main() { let x: u1 = 1; let y: u1 = 2; }", False),
+ ("fn main() { let x: u2 = 3; }", True), ("fn main() { let x: u2 = 4; }", False),
+ ("fn main() { let x: u4 = 15; }", True), ("fn main() { let x: u4 = 16; }", False),
+ ("fn main() { let x: u16 = 65535; }", True), ("fn main() { let x: u16 = 65536; }", False),
+ ("fn main() { let x: u32 = 4294967295; }", True), ("fn main() { let x: u32 = 4294967296; }", False),
+ ("fn main() { let x: u64 = 18446744073709551615; }", True), ("fn main() { let x: u64 = 18446744073709551616; }", False),
+ ("fn main() { let x: (u8, bool) = (1, true); }", True), ("fn main() { let x: (u8, bool) = (true, 1); }", False),
+ ("fn main() { let x: [bool; 2] = [true, 1]; }", False),
+ ("fn main() { let x: [u8; 0] = []; }", True), ("fn main() { let x: [u8; 1] = []; }", False), ("fn main() { let x: [u8; 0] = [1]; }", False),
+ ("fn main() { let x: () = (); }", True), ("fn main() { let x: () = (1,); }", False), ("fn main() { let x: (u8,) = (1,); }", True), ("fn main() { let x: (u8,) = (); }", False),
+ ("fn main() { let x: (u8, u8) = (1,); }", False), ("fn main() { let x: (u8, u8, u8) = (1, 2); }", False),
+ # blocks: the value of a block is its last expression and has the block's type
+ ("fn main() { let x: u8 = { let y: u16 = 1; 2 }; }", True),
+ ("fn main() { let x: u8 = { let y: u16 = 1; y }; }", False),
+ # --- function calls: argument count, argument types, result type
+ ("fn f(a: u8, b: u16) -> u16 { b } fn main() { let x: u16 = f(1, 2); }", True),
+ ("fn f(a: u8, b: u16) -> u16 { b } fn main() { let x: u8 = f(1, 2); }", False),
+ ("fn f(a: u8, b: u16) -> u16 { b } fn main() { let y: u16 = 3; let x: u16 = f(y, 2); }", False),
+ ("fn f(a: u8, b: u16) -> u16 { b } fn main() { let x: u16 = f(1); }", False),
+ ("fn f(a: u8, b: u16) -> u16 { b } fn main() { let x: u16 = f(1, 2, 3); }", False),
+ ("fn f(a: u8) -> u8 { a } fn main() { let x: u8 = f(300); }", False),
+ ("fn f(a: u8) -> u16 { a } fn main() { }", False),
+ ("fn f(a: u8) { } fn main() { f(1); }", True),
+ ("fn f(a: u8) { } fn main() { let x: u8 = f(1); }", False),
+ ("fn f() -> u8 { } fn main() { }", False),
+ # a function body sees only its parameters
+ ("fn f(a: u8) -> u8 { b } fn main() { let b: u8 = 1; let x: u8 = f(b); }", False),
+ # parameters of one function have distinct names (the parameter list binds each name once; F6)
+ ("fn f(a: u8, a: u8) -> u8 { a } fn main() { let x: u8 = f(1, 2); }", False),
+ ("fn f(a: u8, a: u16) -> u16 { a } fn main() { let x: u16 = f(1, 2); }", False),
+ ("fn f(a: u8, b: u8, a: u8) -> u8 { b } fn main() { let x: u8 = f(1, 2, 3); }", False),
+ ("fn f(a: u8, b: u8) -> u8 { let a: u8 = b; a } fn main() { let x: u8 = f(1, 2); assert!(jet::eq_8(x, 2)); }", True),
+ # definitions before use
+ ("fn main() { let x: u8 = g(); } fn g() -> u8 { 1 }", False),
+ ("fn g() -> u8 { 1 } fn main() { let x: u8 = g(); }", True),
+ ("fn g() -> u8 { g() } fn main() { }", False),
+ ("fn main() { let x: T = 1; } type T = u8;", False),
+ ("type A = u8; type B = (A, A); fn main() { let x: B = (1, 2); }", True),
+ ("type B = (A, A); type A = u8; fn main() { let x: B = (1, 2); }", False),
+ ("fn main() { let x: u8 = x; }", False),
+ ("fn main() { let y: u8 = 1; let x: u8 = y; }", True),
+ ("fn main() { let x: u8 = y; let y: u8 = 1; }", False),
+ # jets: arity and types
+ ("fn main() { let x: (bool, u8) = jet::add_8(1, 2); }", True),
+ ("fn main() { let x: u8 = jet::add_8(1, 2); }", False),
+ ("fn main() { let x: (bool, u8) = jet::add_8(1); }", False),
+ ("fn main() { let x: (bool, u8) = jet::add_8(1, 2, 3); }", False),
+ ("fn main() { let x: (bool, u8) = jet::add_8(1, 256); }", False),
+ ("fn main() { let a: u16 = 1; let x: (bool, u8) = jet::add_8(a, 2); }", False),
+ ("fn main() { let x: bool = jet::eq_8(1, 2); }", True),
+ ("fn main() { let x: bool = jet::nonexistent_jet(1, 2); }", False),
+ # built-ins
+ ("fn main() { let x: u8 = unwrap(Some(1)); }", True), ("fn main() { let x: u8 = unwrap(1); }", False),
+ ("fn main() { let x: u8 = unwrap_left::<u16>(Left(1)); }", True), ("fn main() { let x: bool = unwrap_left::<u16>(Left(1)); }", False),
+ ("fn main() { let x: u8 = unwrap_right::<u16>(Right(1)); }", True), ("fn main() { let x: u8 = unwrap_right::<u16>(Right(true)); }", False),
+ ("fn main() { let x: bool = is_none::<u8>(None); }", True), ("fn main() { let x: u8 = is_none::<u8>(None); }", False),
+ ("fn main() { assert!(true); }", True), ("fn main() { assert!(1); }", False), ("fn main() { let x: u8 = assert!(true); }", False),
+ ("fn main() { let x: u8 = dbg!(1); }", True), ("fn main() { let x: u16 = dbg!(true); }", False),
+ # match
+ ("fn main() { let x: u8 = match true { true => 1, false => 2, }; }", True),
+ ("fn main() { let x: u8 = match true { true => 1, false => true, }; }", False),
+ ("fn main() { let x: u8 = match 1 { true => 1, false => 2, }; }", False),
+ ("fn main() { let e: Either<u8, u16> = Left(1); let x: u8 = match e { Left(a: u8) => a, Right(b: u16) => 2, }; }", True),
+ ("fn main() { let e: Either<u8, u16> = Left(1); let x: u8 = match e { Left(a: u8) => a, Right(b: u16) => b, }; }", False),
+ ("fn main() { let e: Either<u8, u16> = Left(1); let x: u8 = match e { Left(a: u16) => 1, Right(b: u16) => 2, }; }", False),
+ ("fn main() { let e: Option<u8> = Some(1); let x: u8 = match e { None => 0, Some(a: u8) => a, }; }", True),
+ ("fn main() { let e: Option<u8> = Some(1); let x: u8 = match e { None => 0, Some(a: u16) => 1, }; }", False),
+ ("fn main() { let e: Option<u8> = Some(1); let x: u8 = match e { Left(a: u8) => a, Right(b: u8) => b, }; }", False),
+ # a match arm binding vanishes after the arm
+ ("fn main() { let e: Option<u8> = Some(1); let x: u8 = match e { None => 0, Some(a: u8) => a, }; let y: u8 = a; }", False),
+ # casts connect structurally equal types
+ ("fn main() { let x: (u8, u8) = (1, 2); let y: u16 = <(u8, u8)>::into(x); }", True),
+ ("fn main() { let x: (u8, u8) = (1, 2); let y: u32 = <(u8, u8)>::into(x); }", False),
+ ("fn main() { let x: u16 = 1; let y: [u8; 2] = <u16>::into(x); }", True),
+ ("fn main() { let x: u16 = 1; let y: [u8; 3] = <u16>::into(x); }", False),
+ ("fn main() { let x: bool = true; let y: u1 = <bool>::into(x); }", True),
+ ("fn main() { let x: bool = true; let y: u2 = <bool>::into(x); }", False),
+ ("fn main() { let x: Option<()> = None; let y: bool = <Option<()>>::into(x); }", True),
+ ("fn main() { let x: u16 = 1; let y: u16 = <u8>::into(x); }", False),
+ ("fn main() { let x: [u8; 4] = [1, 2, 3, 4]; let y: ((u8, u8), (u8, u8)) = <[u8; 4]>::into(x); }", True),
+ ("fn main() { let x: [u8; 3] = [1, 2, 3]; let y: ((u8, u8), u8) = <[u8; 3]>::into(x); }", False),
+ ("fn main() { let x: [u8; 3] = [1, 2, 3]; let y: (u8, (u8, u8)) = <[u8; 3]>::into(x); }", True),
+ # witnesses and parameters
+ ("fn main() { let x: u8 = witness::A; }", True),
+ ("fn main() { let x: u8 = { let y: u8 = witness::A; y }; }", True),
+ ("fn f(a: u8) -> u8 { a } fn main() { let x: u8 = f(witness::A); }", True),
+ ("fn f() -> u8 { let y: u8 = witness::A; y } fn main() { let x: u8 = f(); }", False),
+ ("fn main() { let x: u8 = witness::A; let y: u16 = witness::A; }", False),
+ ("fn main() { let x: (u8, u8) = (witness::A, witness::A); }", False),
+ # main
+ ("fn main() { let x: u8 = 1; x }", False),
+ ("fn f() { }", False),
+ ("fn main() { } fn f() { } fn f() { }", False),
+ ("fn main() { main(); }", False),
+ # lists
+ ("fn main() { let l: List<u8, 4> = list![1, 2, 3]; }", True),
+ ("fn main() { let l: List<u8, 4> = list![1, 2, 3, 4]; }", False),
+ ("fn main() { let l: List<u8, 4> = list![1, true]; }", False),
+ ("fn main() { let l: List<u8, 4> = list![256]; }", False),
+ ("fn main() { let l: List<u8, 2> = list![]; }", True), ("fn main() { let l: List<u8, 2> = list![1]; }", True), ("fn main() { let l: List<u8, 2> = list![1, 2]; }", False),
+ ("fn main() { let l: List<u8, 3> = list![1]; }", False),
+ ("fn main() { let l: List<u8, 1> = list![]; }", False),
+ ("fn main() { let l: List<u8, 4> = list![1]; let m: List<u8, 8> = l; }", False),
+ # fold / for_while signatures
+ ("fn f(e: u8, acc: u16) -> u16 { acc } fn main() { let r: u16 = fold::<f, 4>(list![1, 2], 0); }", True),
+ ("fn f(e: u8, acc: u16) -> u16 { acc } fn main() { let r: u16 = fold::<f, 4>(list![1, 2, 3, 4], 0); }", False),
+ ("fn f(e: u8, acc: u16) -> u16 { acc } fn main() { let r: u16 = fold::<f, 4>(list![1, 2], true); }", False),
+ ("fn f(e: u8, acc: u16) -> u16 { acc } fn main() { let r: u8 = fold::<f, 4>(list![1, 2], 0); }", False),
+ ("fn f(e: u8) -> u8 { e } fn main() { let r: u8 = fold::<f, 4>(list![1, 2], 0); }", False),
+ ("fn f(e: u8, acc: u16, z: u8) -> u16 { acc } fn main() { let r: u16 = fold::<f, 4>(list![1, 2], 0); }", False),
+ ("fn main() { let r: u16 = fold::<g, 4>(list![1, 2], 0); }", False),
+ ("fn s(acc: u8, ctx: u16, i: u1) -> Either<bool, u8> { Right(acc) } fn main() { let r: Either<bool, u8> = for_while::<s>(1, 2); }", True),
+ ("fn s(acc: u8, ctx: u16, i: u2) -> Either<bool, u8> { Right(acc) } fn main() { let r: Either<bool, u8> = for_while::<s>(1, 2); }", True),
+ ("fn s(acc: u8, ctx: u16, i: u4) -> Either<bool, u8> { Right(acc) } fn main() { let r: Either<bool, u8> = for_while::<s>(1, 2); }", True),
+ ("fn s(acc: u8, ctx: u16, i: u16) -> Either<bool, u8> { Right(acc) } fn main() { let r: Either<bool, u8> = for_while::<s>(1, 2); }", True),
+ ("fn s(acc: u8, ctx: u16, i: u32) -> Either<bool, u8> { Right(acc) } fn main() { let r: Either<bool, u8> = for_while::<s>(1, 2); }", False),
+ ("fn s(acc: u8, ctx: u16, i: bool) -> Either<bool, u8> { Right(acc) } fn main() { let r: Either<bool, u8> = for_while::<s>(1, 2); }", False),
+ ("fn s(acc: u8, ctx: u16, i: u8) -> Either<bool, u8> { Right(acc) } fn main() { let r: Either<bool, u8> = for_while::<s>(1, true); }", False),
+ ("fn s(acc: u8, ctx: u16, i: u8) -> Either<bool, u8> { Right(acc) } fn main() { let r: Either<bool, u8> = for_while::<s>(300, 2); }", False),
+ ("fn s(acc: u8, ctx: u16, i: u8) -> Either<bool, u8> { Right(acc) } fn main() { let r: Either<bool, u16> = for_while::<s>(1, 2); }", False),
+ ("fn s(acc: u8, ctx: u16, i: u8) -> u8 { acc } fn main() { let r: u8 = for_while::<s>(1, 2); }", False),
+ ("fn s(acc: u8, ctx: u16, i: u8) -> Either<bool, u8> { Right(acc) } fn main() { let r: Either<bool, u8> = for_while::<s>(1); }", False),
     ]
     for src, ok in cases:
         got = drv.call("run", hx(src), hx(""), hx("mod witness { const A: u8 = 1; const B: u8 = 2; }" if "witness::" in src else ""), "0")
@@ -1245,6 +1447,31 @@ def search_pattern_typing(drv, rng, budget):
             got = drv.call("run", hx(src), hx(""), hx(""), "0")
             if not got.startswith("compile-err"):
                 return {"call": "let binding one name twice in a pattern", "input": {"program": src}, "op": ["run", hx(src), hx(""), hx(""), "0"], "expected": "compile-err", "observed": got}
+    return None
+
+
+@searcher("panic-sweep/")
+def search_panic_sweep(drv, rng, budget):
+    """C06 on STRUCTURED inputs: the generated programs / witness maps / templates / literals of the other searchers (static rule
+    table, patterns, shadowing programs, witnesses, templates, debug builds, error rendering, layouts) are replayed and ONLY a
+    panic or a dead process counts here (what those programs should evaluate to belongs to the other properties)"""
+    drv.panic_log = []
+    try:
+        for name in ("static-rules/", "pattern/", "lookup/", "witness/", "template/", "debugsym/", "error/", "layout/", "fold/list_fold", "forwhile/for_while"):
+            f = SEARCHERS.get(name)
+            if f is None:
+                continue
+            try:
+                f(drv, rng, max(40, budget // 8))
+            except Exception:
+                pass
+            if drv.panic_log:
+                op, resp = drv.panic_log[0]
+                shown = [bytes.fromhex(x).decode("utf-8", "replace") if x and len(x) % 2 == 0 and all(c in "0123456789abcdef" for c in x) else x for x in op[1:]]
+                return {"call": "entry point `%s` on an input generated by %s" % (op[0], name), "input": {"text": shown}, "op": op,
+                        "expected": "Ok or Err (no panic)", "observed": resp[:300]}
+    finally:
+        drv.panic_log = None
     return None
 
 
